@@ -4,6 +4,8 @@ package reasm
 
 import (
 	"bytes"
+	"io"
+	"log"
 	"os"
 	"sync"
 	"testing"
@@ -269,10 +271,14 @@ func c12pkg() *tcpsim.C12Pkg {
 		NewPool:      func(h *tcpsim.C12) { pool = reassembly.NewStreamPool(&factory12{h}) },
 		NewAssembler: func() tcpsim.C12Asm { return asm12{reassembly.NewAssembler(pool)} },
 		PoolConns:    func() int { n, _, _ := pool.VerifStats(); return n },
+		Dump:         func() { pool.Dump() },
 	}
 }
 
-func init() { tcpsim.PageBytes = reassembly.VerifPageBytes }
+func init() {
+	tcpsim.PageBytes = reassembly.VerifPageBytes
+	log.SetOutput(io.Discard) // (StreamPool.Dump writes to the standard logger)
+}
 
 var sims = map[string]sim.SimFunc{
 	"c12r": func(c *sim.Ctx) { tcpsim.RunC12(c, c12pkg()) },
